@@ -478,11 +478,16 @@ def strat(tier):
     # feature values that are substrings / prefixes of one another (incl. the empty string) and plain ones
     cats1 = draw(st.sampled_from([['a', 'b', 'c', 'd'], ['ab', 'a', '', 'b'], ['zz', 'z', 'c', '']]))[:draw(st.integers(2, 4))]
     batches = []
+    wide = family == 'rows' and draw(st.integers(0, 7)) == 0      # a batch with more than 2**4 distinct slice values
     for bi in range(nb):
       n = draw(st.integers(1, maxn))
+      if wide and bi == 0:
+        n = draw(st.sampled_from([17, 18, 33, 40]))
       avail = cats1[:max(1, min(len(cats1), bi + draw(st.integers(1, 2))))]   # later batches introduce new values
       b = {'f1': [draw(st.sampled_from(avail)) for _ in range(n)], 'f2': [draw(st.integers(1, 2)) for _ in range(n)],
            'v': [draw(st.integers(0, 9)) for _ in range(n)], 'w': [draw(st.integers(0, 9)) for _ in range(n)]}
+      # a high-cardinality feature: (nearly) every row of a batch has its own value
+      b['f3'] = [(i * 7 + bi) % 41 for i in range(n)]
       if family == 'masks':
         lens = [draw(st.integers(0, 3)) for _ in range(n)]
         b['r1'] = [[draw(st.integers(0, 9)) for _ in range(l)] for l in lens]
@@ -514,7 +519,9 @@ def strat(tier):
       aggs.append(a)
     slicers = []
     if family == 'rows':
-      kinds = draw(st.lists(st.sampled_from(['feature1', 'feature2', 'cross', 'fan', 'within']), max_size=3, unique=True))
+      kinds = draw(st.lists(st.sampled_from(['feature1', 'feature2', 'cross', 'fan', 'within', 'feature3']), max_size=3, unique=True))
+      if wide and 'feature3' not in kinds:
+        kinds = kinds[:2] + ['feature3']
       for k in kinds:
         # fill values incl. fractions, which an integer column cannot hold (the masked column is promoted)
         rep = draw(st.sampled_from([None, None, None, 0, 7, 0.5, 2.5]))
@@ -522,6 +529,8 @@ def strat(tier):
           slicers.append({'kind': 'feature', 'features': ['f1'], 'single': draw(st.booleans()), 'replace': rep})
         elif k == 'feature2':
           slicers.append({'kind': 'feature', 'features': ['f2'], 'single': draw(st.booleans()), 'replace': rep})
+        elif k == 'feature3':
+          slicers.append({'kind': 'feature', 'features': ['f3'], 'single': draw(st.booleans()), 'replace': rep})
         elif k == 'cross':
           slicers.append({'kind': 'feature', 'features': ['f1', 'f2'], 'replace': rep})
         elif k == 'fan':
